@@ -80,3 +80,24 @@ Proof.
                 [127; 255; 255; 255; 0; 0; 0; 1; 127; 255; 255; 240; 1; 2]%N = Oom) by (vm_compute; reflexivity).
   rewrite E in H. vm_compute in H. discriminate H.
 Qed.
+
+(* C17 with the memory outcome excluded: a cut response of a registered type is an ERROR as soon
+   as the budget covers what the declared frame size allows (2 * KMAX * size bytes) — in
+   particular every strict prefix of a well-formed frame of s bytes under a budget of
+   2 * 217 * s bytes. *)
+Lemma registered_cut_is_error c m input :
+  In m schemas -> bytes_ok input -> (4 <= length input)%nat ->
+  (Z.of_nat (length input) < 4 + get_bes 4 (firstn 4 input))%Z ->
+  (2 * KMAX * Z.max 0 (get_bes 4 (firstn 4 input)) <= Z.of_N (budget c))%Z ->
+  exists e ra al, read_response c m.(ms_flex) m.(ms_ty) input = Err e ra al.
+Proof.
+  intros Hin Hb Hl Hcut Hbud.
+  pose proof gen_schemas_ok as Hok. unfold schemas_ok in Hok. rewrite forallb_forall in Hok.
+  specialize (Hok m Hin). apply andb_true_iff in Hok as [Hok _].
+  pose proof (cut_never_ok c (ms_flex m) (ms_ty m) input Hok Hb Hl Hcut) as H1.
+  pose proof (every_registered_type_alloc c m input Hin Hb) as H2. cbv zeta in H2.
+  destruct (read_response c (ms_flex m) (ms_ty m) input) as [v s'|e ra al| | |];
+    try contradiction.
+  - exists e, ra, al. reflexivity.
+  - exfalso. lia.
+Qed.
